@@ -1093,7 +1093,39 @@ def evaluate(r: Rat, val: dict, fns: dict | None = None):
                 return args[1] if args[0] else args[2]
             if a.name in ('and', 'or'):
                 return F(int(all(args) if a.name == 'and' else any(args)))
+        if a.kind == 'comp':
+            return vec_atom(A(a.args[0]))['xyz'.index(a.name)]
+        if a.kind == 'dot':
+            u_, v_ = vec_atom(A(a.args[0])), vec_atom(A(a.args[1]))
+            return sum((x_ * y_ for x_, y_ in zip(u_, v_, strict=True)), F(0))
+        if a.kind == 'norm':
+            u_ = vec_atom(A(a.args[0]))
+            return power(sum((x_ * x_ for x_ in u_), F(0)), F(1, 2))
+        if a.kind == 'normL':
+            u_ = vec_form(a.args[0])
+            return power(sum((x_ * x_ for x_ in u_), F(0)), F(1, 2))
         raise EvalError(f'atom {show_atom(a)} has no witness value')
+
+    def vec_atom(a: Atom):
+        """(x, y, z) of a vector atom at the witness"""
+        if a.kind == 'basis':
+            return tuple(F(1) if c_ == a.name else F(0) for c_ in 'xyz')
+        if a.kind == 'asvec':
+            return tuple(evaluate(x_, val, fns) for x_ in a.args)
+        if a.kind == 'cross':
+            (ux, uy, uz), (vx, vy, vz) = vec_atom(A(a.args[0])), vec_atom(A(a.args[1]))
+            return (uy * vz - uz * vy, uz * vx - ux * vz, ux * vy - uy * vx)
+        if a.kind == 'vsym' and isinstance(val.get(a.name), tuple | list) and len(val[a.name]) == 3:
+            return tuple(F(x_) for x_ in val[a.name])
+        raise EvalError(f'vector atom {show_atom(a)} has no witness value')
+
+    def vec_form(v: Vec):
+        out = [F(0), F(0), F(0)]
+        for k_, coef in v.terms.items():
+            c_ = evaluate(coef, val, fns)
+            for i_, x_ in enumerate(vec_atom(A(k_))):
+                out[i_] += c_ * x_
+        return tuple(out)
 
     def poly(p):
         total = F(0)
